@@ -89,6 +89,15 @@ func buildOverlay(repo, hdir string) (map[string][]byte, []string) {
 		if err != nil {
 			panic(err)
 		}
+		if strings.HasPrefix(dir, "_gojournal/") {
+			// in-package harness of the dependency: overlaid onto the verbatim copy selected by -modfile
+			virt := filepath.Join(filepath.Dir(hdir), "third_party", "go-journal", strings.TrimPrefix(dir, "_gojournal/"), "zz_verif_"+filepath.Base(p))
+			if tp := os.Getenv("GOSYM_THIRD_PARTY"); tp != "" {
+				virt = filepath.Join(tp, "go-journal", strings.TrimPrefix(dir, "_gojournal/"), "zz_verif_"+filepath.Base(p))
+			}
+			ov[virt] = b
+			return nil
+		}
 		if strings.HasPrefix(dir, "_") {
 			return nil
 		}
@@ -155,6 +164,9 @@ func main() {
 	pats := plan.Patterns
 	if len(pats) == 0 {
 		pats = []string{"./...", "./verifrt"}
+	}
+	if plan.Modfile != "" {
+		pats = append(pats, "github.com/mit-pdos/go-journal/...")
 	}
 	pkgs, err := packages.Load(cfg, pats...)
 	if err != nil {
